@@ -91,6 +91,8 @@ def make_kexinits(rng, thorough):
                 mac_algorithms_server_to_client=pick(SshMacAlgorithm, ['mac-y@z']),
                 compression_algorithms_client_to_server=pick(SshCompressionAlgorithm, ['zlib9', 'ZLIB', 'None']),
                 compression_algorithms_server_to_client=pick(SshCompressionAlgorithm, []),
+                languages_client_to_server=rng.choice([[], ['en-US'], ['es-419', 'de-CH-1996', 'en'], ['zh-Hant-TW', 'sl-rozaj-1994']]),
+                languages_server_to_client=rng.choice([[], ['es-419'], ['i-klingon', 'en-GB']]),
                 cookie=bytearray(rng.randrange(256) for _ in range(16)),
                 first_kex_packet_follows=rng.choice([0, 1]), reserved=rng.choice([0, 1, 2 ** 32 - 1])))
         except Exception:  # pylint: disable=broad-except
@@ -128,6 +130,21 @@ def replay_banners(rep):
     res = tlc.require_ok(tlc.run('Gen_SshWire', workers=1, env={'OUT_FILE': out}, timeout=300), 'Gen_SshWire')
     rep.add_tlc(res, 'Gen_SshWire (identification strings)')
     cases = [json.loads(l) for l in open(out)]
+    from cryptoparser.ssh.subprotocol import SshKeyExchangeInit
+    for c in [c for c in cases if c.get('kind') == 'kexinit']:
+        wire = bytes(c['wire'])
+        rep.case('kexinit|' + wire.hex())
+        o, parsed, _ = call(SshKeyExchangeInit.parse_exact_size, wire)
+        back = wire_ssh.message_abs(parsed) if o == 'ok' else None
+        langs = '%s/%s' % (b','.join(bytes(x) for x in c['abs']['lang_c2s']).decode(), b','.join(bytes(x) for x in c['abs']['lang_s2c']).decode())
+        if back is None or json.dumps(back[1], sort_keys=True) != json.dumps(c['abs'], sort_keys=True):
+            rep.violation('SshKeyExchangeInit|conformant-encoding-not-recovered|generated-languages:' + langs,
+                          'a conformant KEXINIT (language tags %s) is not parsed to its field values' % langs,
+                          {'wire_hex': wire.hex(), 'parse': o, 'expected': c['abs'], 'got': back[1] if back else None})
+        elif bytes(parsed.compose()) != wire:
+            rep.violation('SshKeyExchangeInit|layout-differs-from-specification|generated-languages:' + langs,
+                          'the parsed KEXINIT composes to other bytes', {'wire_hex': wire.hex(), 'composed': bytes(parsed.compose()).hex()})
+    cases = [c for c in cases if c.get('kind') != 'kexinit']
     for c in cases:
         wire = bytes(c['wire'])
         rep.case('banner|' + wire.hex())
